@@ -792,11 +792,15 @@ class Puppet:
                 return
             elif k == "record":
                 cls = metric_classes()[ev.ty]
+                # one instance per (type, value) and run: a value recorded twice is the *same object* both times
+                # (shared constants such as a module-level TICK are ordinary use; the fold must not depend on identity)
+                pool = run.__dict__.setdefault("_metric_pool", {})
+                metric = pool.setdefault((ev.ty, ev.val), cls(items=(ev.val,)))
                 try:
                     if ev.merge == "rep":
-                        ctx.record(cls(items=(ev.val,)))
+                        ctx.record(metric)
                     else:
-                        ctx.record(cls(items=(ev.val,)), merge=rec_merge(ev.merge))
+                        ctx.record(metric, merge=rec_merge(ev.merge))
                     run.rec[run.k] = "ok"
                 except BaseException as exc:  # noqa: BLE001
                     run.rec[run.k] = f"raised:{type(exc).__name__}"
